@@ -5,9 +5,9 @@ yet: remainder, power, the *total* ordering used by `< <= > >=`, and decimal ren
 Mirrors:
 * `number_op!(Rem, rem, %, wrapping_rem)` + the zero-divisor special case of `vm.rs run_remainder`
   (`(Number(_), Number(I64(0))) => NaN`)                                   → `Num.rem`
-* `KNumber::pow` (`wrapping_pow(b as u32)` for two ints with `b ≥ 0`, `powf` otherwise)  → `Num.powTrunc`
-  (the code); `Num.pow` is the guide's wrapping power (full exponent) — they differ only for
-  exponents ≥ 2³² (F-C01-5)
+* `KNumber::pow` (wrapping square-and-multiply over the full exponent for two ints with `b ≥ 0`, `powf`
+  otherwise)                                                               → `Num.pow`
+  (`Num.powTrunc` = the code before fix 1b7bdc2, `wrapping_pow(b as u32)`: historical witness of F-C01-5)
 * `impl Ord for KNumber` (`partial_cmp` on the promoted operands; an unordered pair — a NaN is
   involved — is ordered "NaN is greatest, two NaNs are equal"); `vm.rs run_less` etc. evaluate
   `a < b` through `PartialOrd::partial_cmp = Some(cmp)`, *not* through IEEE `<`   → `Num.cmp` and
@@ -39,19 +39,19 @@ def wpow : Nat → Int64 → Nat → Int64
 /-- `b as u32` for an `i64` -/
 def asU32 (b : Int64) : Nat := b.toUInt64.toNat % 4294967296
 
-/-- integer power of the *guide*: "integer arithmetic wraps", i.e. `a ^ b` for `b ≥ 0` is the
-mathematical power reduced modulo 2⁶⁴ (`Props/C01.int_pow_wraps`); 64 rounds of square-and-multiply
-cover every non-negative `i64` exponent. A negative exponent, or a float operand, goes through
-`powf`. -/
+/-- `KNumber::pow` (since /repo 1b7bdc2): two ints with `b ≥ 0` give the mathematical power reduced
+modulo 2⁶⁴ — "integer arithmetic wraps" (`Props/C01.int_pow_wraps`); the code runs square-and-multiply
+over the whole `u64` exponent, `wpow 64` is the same loop (64 rounds cover every non-negative `i64`
+exponent). A negative exponent, or a float operand, goes through `powf`. -/
 def pow (F : FloatOps) : Num → Num → Num
   | .i a, .i b =>
     if b < 0 then .f (F.pow (F.ofInt a) (F.ofInt b)) else .i (wpow 64 a b.toInt.toNat)
   | a, b => .f (F.pow (a.toF F) (b.toF F))
 
-/-- `KNumber::pow` as the code has it today: the exponent is truncated to its low 32 bits
-(`a.wrapping_pow(b as u32)`), so `2 ^ 4294967296` is `2 ^ 0 = 1` instead of `0`
-(finding F-C01-5, `Props/C01.pow_trunc_witness`; repair: `requests/C01-fix-1.diff`).
-The two agree for every exponent below 2³². -/
+/-- `KNumber::pow` as the code had it *before* 1b7bdc2 (kept as the historical witness of finding
+F-C01-5): the exponent was truncated to its low 32 bits (`a.wrapping_pow(b as u32)`), so
+`2 ^ 4294967296` was `2 ^ 0 = 1` instead of `0` (`Props/C01.pow_trunc_witness`). The two agree for
+every exponent below 2³². -/
 def powTrunc (F : FloatOps) : Num → Num → Num
   | .i a, .i b =>
     if b < 0 then .f (F.pow (F.ofInt a) (F.ofInt b)) else .i (wpow 33 a (asU32 b))
